@@ -204,6 +204,14 @@ def run_shard(spec: dict, rec: Recorder) -> None:
         for s in SUITE_SIDS:
             check_sid(rec, rsd.canonical_sid_from_string(s), seen)
             rec.case(("sid", s), nontrivial=False)
+        # the longest canonical strings: every component at (or next to) its maximum
+        for n in range(1, 16):
+            for a in (2**48 - 1, 2**48 - 2, 10**14, 2**32):
+                for top in (2**32 - 1, 2**32 - 2, 4000000000, 10**9):
+                    sid = rsd.Sid(rng.choice([1, 9]), a, tuple(top - (j % 2) for j in range(n)))
+                    check_sid(rec, sid, seen)
+                    rec.case(("sid", str(sid)))
+                    rec.range("sid_string_length", len(str(sid)))
         # state between calls: look-alike SIDs interleaved and repeated in both orders must not share results
         for _ in range(300):
             a = gen_sid(rng, n=rng.randrange(1, 16))
